@@ -170,14 +170,15 @@ static void setup(void) {
     OPS[NOPS++] = (op_t){OP_REMOVEFIRST, 0, 0, "qlist_removefirst"}; OPS[NOPS++] = (op_t){OP_REMOVELAST, 0, 0, "qlist_removelast"};
     OPS[NOPS++] = (op_t){OP_REVERSE, 0, 0, "qlist_reverse"}; OPS[NOPS++] = (op_t){OP_CLEAR, 0, 0, "qlist_clear"};
     for (int mx = 0; mx <= 3; mx++) OPS[NOPS++] = (op_t){OP_SETSIZE, mx, 0, "qlist_setsize"};
-    for (int i = -L - 2; i <= L + 2; i++) OPS[NOPS++] = (op_t){OP_GETAT, i, 0, "qlist_getat"};
+    if (sm_hist_mode) for (int i = -L - 2; i <= L + 2; i++) OPS[NOPS++] = (op_t){OP_GETAT, i, 0, "qlist_getat"};   /* in the closure a read is a self-loop that the observation already covers */
     snprintf(SP.prefix, sizeof SP.prefix, "list:%d:", L);
     SP.nops = NOPS; SP.label = op_label; SP.transition = transition; SP.initial = initial;
 }
 static int worker(int argc, char **argv) {
-    if (vc_replay_key) { int off; if (sscanf(vc_replay_key, "list:%d:%n", &L, &off) < 1) return 1; setup(); if (argc >= 3 && !strcmp(argv[2], "hist")) sm_hist_mode = 1; vc_case("replay", vc_replay_key); return sm_replay(&SP, vc_replay_key + off); }
+    if (vc_replay_key) { int off; if (sscanf(vc_replay_key, "list:%d:%n", &L, &off) < 1) return 1; if (argc >= 3 && !strcmp(argv[2], "hist")) sm_hist_mode = 1; setup(); vc_case("replay", vc_replay_key); return sm_replay(&SP, vc_replay_key + off); }
     if (argc < 2) return 1;
-    L = atoi(argv[1]); setup();
+    L = atoi(argv[1]); if (argc >= 7 && !strcmp(argv[2], "hist")) sm_hist_mode = 1;
+    setup();
     if (argc >= 7 && !strcmp(argv[2], "hist")) {   /* list <L> hist <n> <depth> <shard> <nshards>: seed state of n elements (addlast), then every history of <= depth operations, unmerged */
         int n = atoi(argv[3]); uint16_t seed[16];
         for (int i = 0; i < n && i < 16; i++) { int want = i % 3; for (int o = 0; o < NOPS; o++) if (OPS[o].kind == OP_ADDLAST && OPS[o].e == want) seed[i] = (uint16_t)o; }
